@@ -578,7 +578,7 @@ macro_rules! parse_digits_checked {
 /// * `is_partial` - If the parser is a partial parser.
 #[rustfmt::skip]
 macro_rules! algorithm {
-($bytes:ident, $into_ok:ident, $invalid_digit:ident, $no_multi_digit:expr) => {{
+($bytes:ident, $into_ok:ident, $invalid_digit:ident, $no_multi_digit:expr, $is_partial:expr) => {{
     // WARNING:
     // --------
     // None of this code can be changed for optimization reasons.
@@ -617,6 +617,23 @@ macro_rules! algorithm {
             into_error!(Empty, iter.cursor());
         } else {
             $into_ok!(T::ZERO, iter.cursor(), 0)
+        }
+    }
+
+    // A sign that is not followed by a digit is not a number: the partial parser
+    // would otherwise report the lone sign as a parsed `0`, which the complete
+    // parser rejects as empty.
+    if $is_partial && iter.cursor() != 0 {
+        #[cfg(not(feature = "format"))]
+        let requires_digits = true;
+        #[cfg(feature = "format")]
+        let requires_digits = required_digits!();
+        if requires_digits {
+            if let Some(&c) = iter.peek() {
+                if char_to_digit_const(c, radix).is_none() {
+                    into_error!(Empty, iter.cursor());
+                }
+            }
         }
     }
 
@@ -704,7 +721,7 @@ pub fn algorithm_complete<T, const FORMAT: u128>(bytes: &[u8], options: &Options
 where
     T: Integer,
 {
-    algorithm!(bytes, into_ok_complete, invalid_digit_complete, options.get_no_multi_digit())
+    algorithm!(bytes, into_ok_complete, invalid_digit_complete, options.get_no_multi_digit(), false)
 }
 
 /// Algorithm for the partial parser.
@@ -716,5 +733,5 @@ pub fn algorithm_partial<T, const FORMAT: u128>(
 where
     T: Integer,
 {
-    algorithm!(bytes, into_ok_partial, invalid_digit_partial, options.get_no_multi_digit())
+    algorithm!(bytes, into_ok_partial, invalid_digit_partial, options.get_no_multi_digit(), true)
 }
